@@ -17,7 +17,7 @@ ASSUMPTIONS = [
     "cases in which a member alone, or the operations applied to the other members alone, raise are skipped (C09 / C14 own those)",
     "names differ through parameters or name_suffix; arbitrary fullname_override values are not generated",
 ]
-PARTIAL = ""
+PARTIAL = "proved for all kinds: operations aimed at b never touch a; presence/order independence of a's readings given disjoint names and reads (TreeOK, decidable); a introduced later by add_indicator: presence_FULL"
 
 
 def oracle(ctx):
